@@ -150,7 +150,7 @@ func runRun(t *testing.T, s *Scenario) (evs []wire.Event) {
 			"min", rp.MinTTL, "max", rp.MaxTTL, "timeout_us", int64(rp.TimeoutMs)*1000, "delay_us", int64(rp.DelayMs)*1000, "poll_us", 100000,
 			"target", rp.Hostname, "port", rp.Port, "cancel_us", s.CancelUs, "filter", s.Script.Filter,
 			"protocol", rp.Protocol, "tcp_method", rp.TCPMethod, "queries", rp.Queries, "e2e", rp.E2E, "reverse_dns", rp.ReverseDNS,
-			"public_ip", rp.PublicIP, "pub_mode", rp.PubMode, "skip_private", rp.SkipPrivate, "query", rp.Query, "want_v6", rp.WantV6, "paris", rp.Paris)
+			"expect", expectOf(s), "public_ip", rp.PublicIP, "pub_mode", rp.PubMode, "skip_private", rp.SkipPrivate, "query", rp.Query, "want_v6", rp.WantV6, "paris", rp.Paris)
 		ctx, cancel := context.WithCancel(context.Background())
 		defer cancel()
 		if s.CancelUs > 0 {
@@ -232,6 +232,13 @@ func runRun(t *testing.T, s *Scenario) (evs []wire.Event) {
 		evs = w.Events()
 	})
 	return evs
+}
+
+func expectOf(s *Scenario) any {
+	if e, ok := s.Extra["expect"]; ok {
+		return e
+	}
+	return map[string]any{"reject": false, "min": 0, "max": 0, "addr": "", "port": 0, "kind": "none"}
 }
 
 func truncate(s string, n int) string {
